@@ -20,6 +20,9 @@ THEOREMS = [
     "BeyondVerif.C17.orbit_frame_origin",
     "BeyondVerif.C17.orbit_frame_roundtrip",
     "BeyondVerif.C17.orbit_frame_roundtrip_back",
+    "BeyondVerif.C17.reregistration_wins",
+    "BeyondVerif.C17.registration_local",
+    "BeyondVerif.C17.conversions_leave_no_trace",
     "BeyondVerif.C17.impulse_window_once",
     "BeyondVerif.C17.impulse_applied_within_one_step",
     "BeyondVerif.C17.several_impulses_once",
@@ -53,7 +56,8 @@ TRUSTED = [
     "harness/py2lean.py: translate_vec_function (to_qsw, to_tnw -> Generated/Local{F,R}.lean), translate_slice (dkep2dv -> Generated/Dkep{F,R}.lean), "
     "Tr.expr (dkep2aol, ImpulsiveMan.check, ContinuousMan.check -> Generated/ManWindow.lean); Butcher nodes read from the live KeplerNum.BUTCHER",
     "lean/templates/Vec3.tpl (numpy cross / norm / matrix-vector products on 3-vectors), lean/templates/Man.tpl (to_local dispatch, projection, attached frame), "
-    "lean/BeyondVerif/Model/ManWin.lean (step loop of KeplerNum._iter/_make_step): hand-written, tied by the correspondence run",
+    "lean/BeyondVerif/Model/ManWin.lean (step loop of KeplerNum._iter/_make_step), lean/BeyondVerif/Model/FrameReg.lean (a frame name means its latest "
+    "registration; conversions leave no trace): hand-written, tied by the correspondence run",
     "numpy / libm double arithmetic vs R: tolerance 1e-9 relative (1e-12 for rotation entries; dv_t of dkep2dv up to 64 ulp of the speed)",
     "Date comparisons are exact at millisecond granularity (Date compares float MJD, resolution ~0.6 us: property C03)",
 ]
@@ -78,7 +82,8 @@ OPEN = [
 ]
 RULE = ("correspondence: to_local on random elliptic/hyperbolic/retrograde states (radii 1 m .. 3.8e8 m) and an unknown tag; ImpulsiveMan.dv / ContinuousMan.accel "
         "(accel= and dv=) for tags QSW/TNW/lowercase/None/other; KeplerianImpulsiveMan.dv, dkep2dv, dkep2aol on increments 1e-3 m..2e6 m, 1e-7..0.3 rad; "
-        "orbit2frame conversions both ways; ImpulsiveMan.check on real Dates over random step lists (ms granularity; on/off grid, outside the span, zero/negative "
+        "orbit2frame sessions (names registered, used at recurring dates, re-registered from another orbit / orientation, used again: binding from the registry "
+        "model, values from frameTo/frameFrom); ImpulsiveMan.check on real Dates over random step lists (ms granularity; on/off grid, outside the span, zero/negative "
         "steps); impulses applied per step by the real KeplerNum loop (instrumented dv, 4 methods, up to 4 maneuvers); ContinuousMan.check at the stage dates of the "
         "4 Butcher tableaux — all against the compiled Lean model; non-trivial = non-zero vector / increment; distinct = distinct request. "
         "oracle: theorem statements on the real API incl. per-step velocity jumps of KeplerNum vs a maneuver-free step from the same state, delivered delta-v of "
@@ -324,37 +329,63 @@ def correspondence(ctx):
         add(" ".join(["c17.dkep"] + ftoks([mu, a, i, v, da, di, dO])), chk)
         real_aol = float(dkep2aol(orbc, di, dO))
         add(" ".join(["c17.aol"] + ftoks([i, di, dO])), lambda rep, inp=inp, r=real_aol: cmp_floats(out, "c17-aol", "dkep2aol differs from the model", inp, [r], rep, 1e-12))
-    # 4. orbit-attached frames
-    for k in range(ctx.n(8, 60)):
-        kep = [rng.choice([6.8e6, 7.2e6, 2.66e7, 4.2164e7]) * rng.uniform(0.98, 1.02), rng.uniform(0, 0.6), rng.uniform(0.01, 3.1),
-               rng.uniform(0, 6.28), rng.uniform(0, 6.28), rng.uniform(0, 6.28)]
-        ref = mk_orbit(kep, "keplerian", Kepler(), d0)
-        ori = rng.choice(["QSW", "TNW", None])
-        name = f"C17K{k % 12}"
-        orbit2frame(name, ref, orientation=ori, exists_warning=False)
-        for _ in range(ctx.n(12, 100)):
-            date = d0 + timedelta(seconds=rng.choice([0.0, rng.uniform(-3000, 3000)]))
+    # 4. orbit-attached frames, as sessions: names are registered, used at a few recurring dates, registered again from
+    #    another orbit / with another orientation, used again at the same dates.  The registry model (Model/FrameReg.lean)
+    #    says which (orientation, orbit) each conversion must use; the numeric model (frameTo / frameFrom) gives the values.
+    from beyond.orbits import Orbit
+    sess_reqs, sess_meta = [], []
+    for sidx in range(ctx.n(10, 60)):
+        _FRAME_SEQ[0] += 1
+        names = [f"C17S{_FRAME_SEQ[0] % 7}{c}" for c in "ab"]
+        orbits = [gen_ref_orbit(rng, d0) for _ in range(3)]
+        dates = [d0 + timedelta(seconds=t) for t in (0.0, q6(rng.uniform(-3000, 3000)), q6(rng.uniform(0, 86400)))]
+        toks, convs, bound = [], [], set()
+        for _ in range(ctx.n(10, 14)):
+            name = rng.choice(names)
+            if name not in bound or rng.random() < 0.3:
+                oid = rng.randrange(len(orbits))
+                ori = rng.choice(["QSW", "TNW", "QSW", "TNW", None])
+                orbit2frame(name, orbits[oid][1], orientation=ori, exists_warning=False)
+                bound.add(name)
+                toks += ["reg", name, ori or "-", str(oid)]
+                continue
+            date = rng.choice(dates)
+            direction = rng.choice(["to", "from"])
+            if direction == "to":
+                near = list(map(float, orbits[rng.randrange(len(orbits))][1].propagate(date).copy(form="cartesian")))
+                x = [near[j] + rng.uniform(-1, 1) * 10 ** rng.uniform(0, 6) for j in range(3)] + [near[j] + rng.uniform(-1, 1) * 10 ** rng.uniform(-3, 2) for j in range(3, 6)]
+                real = list(map(float, mk_orbit(x, "cartesian", None, date).copy(frame=name)))
+            else:
+                x = [rng.uniform(-1, 1) * 10 ** rng.uniform(0, 6) for _ in range(3)] + [rng.uniform(-1, 1) * 10 ** rng.uniform(-3, 2) for _ in range(3)]
+                real = list(map(float, Orbit(x, date, "cartesian", name, None).copy(frame="EME2000")))
+            toks += ["conv", name]
+            convs.append((name, date, direction, x, real))
+        sess_reqs.append(" ".join(["c17.session"] + toks))
+        sess_meta.append((orbits, convs, toks))
+    sess_replies = core.Driver().run(sess_reqs) if sess_reqs else []
+    for (orbits, convs, toks), rep in zip(sess_meta, sess_replies):
+        ents = rep.split()
+        if len(ents) != len(convs):
+            out.fail("c17-frame-session", "registry model returned a wrong number of bindings: " + rep[:80], {"session": toks}); continue
+        seen = {}
+        for (name, date, direction, x, real), ent in zip(convs, ents):
+            mt, oid = ent.split(":") if ":" in ent else ("?", "0")
+            kep, ref = orbits[int(oid)]
             refc = list(map(float, ref.propagate(date).copy(form="cartesian")))
-            x = [refc[j] + rng.uniform(-1, 1) * 10 ** rng.uniform(0, 6) for j in range(3)] + [refc[j] + rng.uniform(-1, 1) * 10 ** rng.uniform(-3, 2) for j in range(3, 6)]
-            o = mk_orbit(x, "cartesian", None, date)
-            loc = list(map(float, o.copy(frame=name)))
             sr, sv = norm(refc[:3]), norm(refc[3:])
-            mt = ori or "-"
-            inp = {"ref": refc, "orientation": ori, "state": x}
-            out.count(key=("to", tuple(x), ori), kind=f"frame-to-{mt}")
+            rebound = seen.get((name, str(date)), ent) != ent
+            seen[(name, str(date))] = ent
+            inp = {"session": " ".join(toks), "frame": name, "binding": ent, "ref_kep": kep, "date": str(date), "direction": direction, "state": x,
+                   "same_name_and_date_used_before_with_another_binding": rebound}
+            out.count(key=("sess", name, str(date), direction, tuple(x)), kind=f"frame-{direction}-{mt}", rebound_same_date=rebound)
 
-            def chk6(rep, real, what, inp=inp, sr=sr, sv=sv):
-                if not rep[0].isdigit():
-                    out.fail("c17-frame", "model rejected the request: " + rep, inp); return
-                m = [b2f(t) for t in rep.split()]
-                if not (all(abs(a - b) <= 1e-9 * sr for a, b in zip(real[:3], m[:3])) and all(abs(a - b) <= 1e-9 * sv for a, b in zip(real[3:], m[3:]))):
-                    out.fail("c17-frame", what, inp, observed=real, expected=m)
-            add(" ".join(["c17.to", mt] + ftoks(refc) + ftoks(x)), lambda rep, real=loc, f=chk6: f(rep, real, "state in the attached frame differs from the model"))
-            y = [rng.uniform(-1, 1) * 10 ** rng.uniform(0, 6) for _ in range(3)] + [rng.uniform(-1, 1) * 10 ** rng.uniform(-3, 2) for _ in range(3)]
-            from beyond.orbits import Orbit
-            back = list(map(float, Orbit(y, date, "cartesian", name, None).copy(frame="EME2000")))
-            out.count(key=("from", tuple(y), ori), kind=f"frame-from-{mt}")
-            add(" ".join(["c17.from", mt] + ftoks(refc) + ftoks(y)), lambda rep, real=back, f=chk6: f(rep, real, "state converted back to the parent differs from the model"))
+            def chk6(rep2, real=real, inp=inp, sr=sr, sv=sv):
+                if not rep2[0].isdigit():
+                    out.fail("c17-frame", "model rejected the request: " + rep2, inp); return
+                m = [b2f(t) for t in rep2.split()]
+                if not (all(abs(a - b) <= 1e-9 * sr for a, b in zip(real[:3], m[:3])) and all(abs(a - b) <= 1e-9 * sv + 1e-9 for a, b in zip(real[3:], m[3:]))):
+                    out.fail("c17-frame", "conversion through an orbit-attached frame differs from the model (binding given by the registry model)", inp, observed=real, expected=m)
+            add(" ".join(["c17." + direction, mt] + ftoks(refc) + ftoks(x)), chk6)
     # 5. impulse windows: the loop `date += step` with the real ImpulsiveMan.check on real Dates (integer milliseconds)
     for _ in range(ctx.n(500, 20000)):
         t0 = rng.choice([0, rng.randrange(0, 86_400_000)])
@@ -539,49 +570,79 @@ def oracle_projection(out, rng, N):
 _FRAME_SEQ = [0]
 
 
+def gen_ref_orbit(rng, d0):
+    """reference of an attached frame: an Orbit with the Kepler propagator (moving) or a bare StateVector (fixed)"""
+    from beyond.propagators.kepler import Kepler
+    kep = [rng.choice([6.8e6, 7.2e6, 2.66e7, 4.2164e7]) * rng.uniform(0.98, 1.02), rng.uniform(0, 0.6), rng.uniform(0.01, 3.1),
+           rng.uniform(0, 6.28), rng.uniform(0, 6.28), rng.uniform(0, 6.28)]
+    return kep, mk_orbit(kep, "keplerian", Kepler(), d0)
+
+
 def oracle_orbit_frame(out, rng, N):
-    """orbit2frame: the attached orbit sits at the origin; conversion to and from the parent round-trips"""
+    """orbit2frame sessions: a name is registered, used at recurring dates, registered again (exists_warning=False) from another
+    orbit and/or with another orientation, used at the same dates again.  After every registration: the attached orbit is at
+    the origin, the axes are those of the *current* reference orbit (100 m along each axis reads (100, 0, 0) ...), coordinates
+    are M (x - x_ref), and the conversion round-trips through EME2000 / MOD / ITRF."""
     import numpy as np
     from beyond.dates import Date, timedelta
     from beyond.frames.frames import orbit2frame
+    from beyond.orbits import StateVector
     from beyond.propagators.kepler import Kepler
     d0 = Date(2020, 5, 24)
     for _ in range(N):
-        kep = [rng.choice([6.8e6, 7.2e6, 2.66e7, 4.2164e7]) * rng.uniform(0.98, 1.02), rng.uniform(0, 0.6), rng.uniform(0.01, 3.1),
-               rng.uniform(0, 6.28), rng.uniform(0, 6.28), rng.uniform(0, 6.28)]
-        ref = mk_orbit(kep, "keplerian", Kepler(), d0)
-        ori = rng.choice(["QSW", "TNW", None])
         _FRAME_SEQ[0] += 1
-        name = f"C17F{_FRAME_SEQ[0] % 12}"
-        fr = orbit2frame(name, ref, orientation=ori, exists_warning=False)
-        for _ in range(4):
-            dt = rng.choice([0.0, rng.uniform(-3000, 3000), rng.uniform(0, 86400)])
-            date = d0 + timedelta(seconds=dt)
-            refc = ref.propagate(date).copy(form="cartesian")
-            at0 = np.array(refc.copy(frame=name))
-            out.count(key=("origin", tuple(kep), dt, ori), kind=f"orbit-frame-origin-{ori}")
-            scale_r, scale_v = np.linalg.norm(np.array(refc)[:3]), np.linalg.norm(np.array(refc)[3:])
-            inp = {"ref_kep": kep, "orientation": ori, "dt": dt}
-            if not (np.all(np.abs(at0[:3]) <= 1e-9 * scale_r) and np.all(np.abs(at0[3:]) <= 1e-9 * scale_v)):
-                out.fail(f"orbit-frame-origin-{ori}", "the orbit a frame is attached to is not at that frame's origin", inp, observed=at0.tolist(), expected=[0] * 6)
-            x = np.array(refc) + np.array([rng.uniform(-1, 1) * 10 ** rng.uniform(0, 6) for _ in range(3)] + [rng.uniform(-1, 1) * 10 ** rng.uniform(-3, 2) for _ in range(3)])
-            parent = rng.choice(["EME2000", "EME2000", "MOD", "ITRF"])
-            o = mk_orbit(list(x), "cartesian", None, date)
-            if parent != "EME2000":
-                o = o.copy(frame=parent)
-            loc = o.copy(frame=name)
-            back = np.array(loc.copy(frame=parent))
-            out.count(key=("roundtrip", tuple(kep), dt, ori, parent), kind=f"orbit-frame-roundtrip-{ori}-{parent}")
-            oo = np.array(o)
-            if not (np.allclose(back[:3], oo[:3], rtol=0, atol=1e-9 * scale_r) and np.allclose(back[3:], oo[3:], rtol=0, atol=1e-9 * scale_v + 1e-9)):
-                out.fail(f"orbit-frame-roundtrip-{ori}", "parent -> attached frame -> parent changes the state", dict(inp, parent=parent, state=oo.tolist()),
-                         observed=back.tolist(), expected=oo.tolist())
-            if parent == "EME2000" and ori is not None:
-                m = np.array(axes_expected(ori, list(map(float, refc))))
-                exp = np.concatenate([m @ (oo[:3] - np.array(refc)[:3]), m @ (oo[3:] - np.array(refc)[3:])])
-                if not (np.allclose(np.array(loc)[:3], exp[:3], rtol=0, atol=1e-9 * scale_r) and np.allclose(np.array(loc)[3:], exp[3:], rtol=0, atol=1e-9 * scale_v)):
-                    out.fail(f"orbit-frame-axes-{ori}", "coordinates in the attached frame are not M (x - x_ref)", dict(inp, state=oo.tolist()),
-                             observed=np.array(loc).tolist(), expected=exp.tolist())
+        name = f"C17F{_FRAME_SEQ[0] % 7}"
+        dates = [d0 + timedelta(seconds=t) for t in (0.0, q6(rng.uniform(-3000, 3000)), q6(rng.uniform(0, 86400)))]
+        nreg = rng.choice([2, 3])
+        prev = None
+        for k in range(nreg):
+            kep, ref = gen_ref_orbit(rng, d0)
+            if prev is not None and rng.random() < 0.4:
+                # the same orbit after a small plane change / the same orbit with the other orientation
+                kep = list(prev); kep[2] = min(3.1, kep[2] + rng.choice([0.0, 0.035])); ref = mk_orbit(kep, "keplerian", Kepler(), d0)
+            ori = rng.choice(["QSW", "TNW", "QSW", "TNW", None])
+            fixed = rng.random() < 0.25
+            if fixed:
+                ref = StateVector(list(map(float, ref.copy(form="cartesian"))), d0, "cartesian", "EME2000")
+            orbit2frame(name, ref, orientation=ori, exists_warning=False)
+            prev = kep
+            tagfam = f"{ori}" + ("-reregistered" if k else "")
+            for date in dates:
+                refc = (ref if fixed else ref.propagate(date)).copy(form="cartesian")
+                rc = np.array(list(map(float, refc)))
+                scale_r, scale_v = np.linalg.norm(rc[:3]), np.linalg.norm(rc[3:])
+                inp = {"frame": name, "registration": k, "ref_kep": kep, "orientation": ori, "fixed_statevector": fixed, "date": str(date)}
+                at0 = np.array(mk_orbit(list(rc), "cartesian", None, date).copy(frame=name))
+                out.count(key=("origin", tuple(kep), str(date), ori, k), kind=f"orbit-frame-origin-{ori}", registration=k)
+                if not (np.all(np.abs(at0[:3]) <= 1e-9 * scale_r) and np.all(np.abs(at0[3:]) <= 1e-9 * scale_v)):
+                    out.fail(f"orbit-frame-origin-{tagfam}", "the orbit a frame is attached to is not at that frame's origin", inp, observed=at0.tolist(), expected=[0] * 6)
+                # axes against their definition: a point 100 m along axis k of the current reference orbit
+                m = np.array(axes_expected(ori, list(rc))) if ori else np.identity(3)
+                for ax in range(3):
+                    p = rc.copy(); p[:3] += 100.0 * m[ax]
+                    got = np.array(mk_orbit(list(p), "cartesian", None, date).copy(frame=name))[:3]
+                    exp = np.zeros(3); exp[ax] = 100.0
+                    out.count(key=("axis", tuple(kep), str(date), ori, k, ax), kind=f"orbit-frame-axis-{ori}", registration=k)
+                    if np.abs(got - exp).max() > 1e-9 * scale_r + 1e-6:
+                        out.fail(f"orbit-frame-axes-{tagfam}", "100 m along an axis of the reference orbit's local frame does not read 100 m on that axis of the attached frame",
+                                 dict(inp, axis=ax), observed=got.tolist(), expected=exp.tolist())
+                x = rc + np.array([rng.uniform(-1, 1) * 10 ** rng.uniform(0, 6) for _ in range(3)] + [rng.uniform(-1, 1) * 10 ** rng.uniform(-3, 2) for _ in range(3)])
+                parent = rng.choice(["EME2000", "EME2000", "MOD", "ITRF"])
+                o = mk_orbit(list(x), "cartesian", None, date)
+                if parent != "EME2000":
+                    o = o.copy(frame=parent)
+                loc = o.copy(frame=name)
+                back = np.array(loc.copy(frame=parent))
+                out.count(key=("roundtrip", tuple(kep), str(date), ori, parent, k), kind=f"orbit-frame-roundtrip-{ori}-{parent}", registration=k)
+                oo = np.array(o)
+                if not (np.allclose(back[:3], oo[:3], rtol=0, atol=1e-9 * scale_r) and np.allclose(back[3:], oo[3:], rtol=0, atol=1e-9 * scale_v + 1e-9)):
+                    out.fail(f"orbit-frame-roundtrip-{tagfam}", "parent -> attached frame -> parent changes the state", dict(inp, parent=parent, state=oo.tolist()),
+                             observed=back.tolist(), expected=oo.tolist())
+                if parent == "EME2000":
+                    exp = np.concatenate([m @ (oo[:3] - rc[:3]), m @ (oo[3:] - rc[3:])])
+                    if not (np.allclose(np.array(loc)[:3], exp[:3], rtol=0, atol=1e-9 * scale_r) and np.allclose(np.array(loc)[3:], exp[3:], rtol=0, atol=1e-9 * scale_v + 1e-9)):
+                        out.fail(f"orbit-frame-axes-{tagfam}", "coordinates in the attached frame are not M (x - x_ref) for the current reference orbit", dict(inp, state=oo.tolist()),
+                                 observed=np.array(loc).tolist(), expected=exp.tolist())
 
 
 def mk_num(kep, step, method, bodies=True, form="keplerian"):
